@@ -1129,6 +1129,8 @@ type responseWriter struct {
 	// trailers before writing the first bytes of data (like Connect
 	// and REST unary).
 	buf *bytes.Buffer
+	// writes into buf, subject to the message buffer limit; detached from buf once buf is released
+	bufWriter *limitWriter
 }
 
 func (w *responseWriter) Header() http.Header {
@@ -1274,7 +1276,8 @@ func (w *responseWriter) writeHeader(statusCode int) {
 		// buffer the entire response.
 		verifPoint("resp:buffered")
 		w.buf = w.op.bufferPool.Get()
-		delegate = &limitWriter{buf: w.buf, limit: w.op.methodConf.maxMsgBufferBytes, rw: w}
+		w.bufWriter = &limitWriter{buf: w.buf, limit: w.op.methodConf.maxMsgBufferBytes, rw: w}
+		delegate = w.bufWriter
 	} else {
 		// We can go ahead and flush headers now.
 		w.flushHeaders()
@@ -1392,6 +1395,9 @@ func (w *responseWriter) flushHeaders() {
 		}
 		w.op.bufferPool.Put(w.buf)
 		w.buf = nil
+		// The body writer may still flush what it holds when it is closed (e.g. after
+		// an error ended the response early): it must not touch the released buffer.
+		w.bufWriter.buf = nil
 	}
 	if w.respMeta.end != nil {
 		// response is done
@@ -1955,6 +1961,9 @@ type limitWriter struct {
 }
 
 func (l *limitWriter) Write(data []byte) (n int, err error) {
+	if l.buf == nil {
+		return 0, errFinalDataAlreadyWritten
+	}
 	length := l.buf.Len() + len(data)
 	if length > int(l.limit) {
 		err := bufferLimitError(int64(l.limit))
